@@ -315,3 +315,21 @@ def ref_strategies(repo):
     if len(out) != 4:
         raise Undecided('cannot identify the packet / callable strategy pairs of Ref from its _compile (found %s)' % sorted(out))
     return out
+
+
+def struct_object_attrs(repo):
+    """names of the attributes that hold a ``struct.Struct`` object (assigned from a
+    ``struct.Struct(...)`` call somewhere in the package): their ``.unpack`` / ``.pack`` are the
+    standard codec, not a field's"""
+    key = ('struct_attrs',)
+    if key in repo._mro_cache:
+        return repo._mro_cache[key]
+    out = set()
+    for fi in repo.functions.values():
+        for n in ast.walk(fi.node):
+            if isinstance(n, ast.Assign) and isinstance(n.value, ast.Call) and call_name(n.value) in ('struct.Struct', 'Struct'):
+                for t in n.targets:
+                    if isinstance(t, ast.Attribute):
+                        out.add(t.attr)
+    repo._mro_cache[key] = out
+    return out
